@@ -86,7 +86,11 @@ fn write_blob_atomic(workspace_root: &Path, artifact_id: &str, bytes: &[u8]) -> 
     let path = dir.join(artifact_id);
     let tmp = dir.join(format!("{artifact_id}.tmp"));
     fs::write(&tmp, bytes).map_err(|err| format!("artifact write failed: {err}"))?;
+    #[cfg(rip_verif)]
+    rip_kernel::verif::point("artifact.after_tmp", artifact_id);
     fs::rename(&tmp, &path).map_err(|err| format!("artifact finalize failed: {err}"))?;
+    #[cfg(rip_verif)]
+    rip_kernel::verif::point("artifact.after_rename", artifact_id);
     Ok(())
 }
 
